@@ -37,8 +37,9 @@ def hash_iteration_sites(F, prefix_ok):
     return out
 
 
-def mut_sinks_in_closure(F, cpath, depth=0):
-    """callees inside a closure (and nested closures) that receive a mutably captured variable"""
+def mut_sinks_in_closure(F, cpath, depth=0, skip_env=()):
+    """callees inside a closure (and nested closures) that receive a mutably captured variable (captures whose environment
+    index is in skip_env are left out: state that lives inside the iteration that created the closure)"""
     cf = F.fns.get(cpath)
     if cf is None or depth > 3:
         return ["?closure"]
@@ -52,6 +53,13 @@ def mut_sinks_in_closure(F, cpath, depth=0):
                 base = base["base"]
             if base.get("k") == "arg" and base["n"] == 1 and o.get("k") == "field":
                 # an upvar; mutable if the captured field type is &mut
+                envi = [e.get("f") for e in o.get("proj", []) if isinstance(e, dict) and "f" in e]
+                o2 = o
+                while o2.get("k") == "field" and o2["base"].get("k") == "field":
+                    o2 = o2["base"]
+                envi = [e.get("f") for e in o2.get("proj", []) if isinstance(e, dict) and "f" in e] or envi
+                if envi and envi[0] in skip_env:
+                    continue
                 pl = op_place(a)
                 ty = cf.local_ty(pl["l"]) if pl else ""
                 if ty.startswith("&mut "):
@@ -162,7 +170,26 @@ def signature(F, f, b, t):
                     # closures created in the loop capturing outside state mutably
                 for b3, i3, s3 in f.stmts():
                     if b3 in loop and s3.get("rv", {}).get("k") == "agg" and "closure" in s3["rv"]:
-                        sinks += mut_sinks_in_closure(F, s3["rv"]["closure"])
+                        # captures of state that is created anew in every iteration are not sinks of the iteration (same as for
+                        # the calls of the loop body above)
+                        skip = set()
+                        for ci, cop in enumerate(s3["rv"].get("ops", [])):
+                            cpl = op_place(cop)
+                            if cpl is None or cpl["p"]:
+                                continue
+                            bl = cpl["l"]
+                            dd = d.whole_defs(bl)
+                            if len(dd) == 1 and dd[0][2] == "assign" and dd[0][3]["rv"]["k"] == "ref":
+                                base = dd[0][3]["rv"]["place"]
+                                bl = base["l"]
+                                if base["p"] == ["*"]:
+                                    d2 = d.whole_defs(bl)
+                                    if len(d2) == 1 and d2[0][2] == "assign" and d2[0][3]["rv"]["k"] == "ref":
+                                        bl = d2[0][3]["rv"]["place"]["l"]
+                            defs_out = [x for x in d.defs.get(bl, []) if x[0] not in loop]
+                            if not defs_out and not (1 <= bl <= f.d["arg_count"]) and d.defs.get(bl):
+                                skip.add(ci)
+                        sinks += mut_sinks_in_closure(F, s3["rv"]["closure"], skip_env=skip)
             break
         cur = t2["dest"]["l"]
         if name.split("::")[-1] in ("collect", "for_each", "count", "any", "all", "find", "sum", "max", "min", "fold",
